@@ -5,6 +5,8 @@ import (
 	"crypto/sha256"
 	"encoding/json"
 	"fmt"
+	"os"
+	"os/exec"
 	"reflect"
 	"sort"
 	"strconv"
@@ -15,6 +17,7 @@ import (
 	"github.com/vektah/gqlparser/v2"
 	"github.com/vektah/gqlparser/v2/ast"
 	"github.com/vektah/gqlparser/v2/formatter"
+	"github.com/vektah/gqlparser/v2/gqlerror"
 	"github.com/vektah/gqlparser/v2/parser"
 	"github.com/vektah/gqlparser/v2/validator"
 	"pgregory.net/rapid"
@@ -131,25 +134,63 @@ type c11History struct {
 }
 
 // runJob executes one call against the shared schema and returns a digest of its result.
-func runJob(s *ast.Schema, j c11Job) (digest string) {
+func runJob(s *ast.Schema, j c11Job) string { return execJob(s, j).digest() }
+
+// jobResult is what a call returned, kept as returned: digests are computed outside the
+// concurrent phase, because fmt and encoding/json synchronise through pools and would order
+// the goroutines for the race detector.
+type jobResult struct {
+	text    string        // parse error, panic
+	errs    gqlerror.List // validate, invalid documents
+	invalid bool
+	parts   []interface{} // coerce / argmap: per operation the coerced variables (or an error), then argument maps
+	out     []byte        // format
+	format  bool
+}
+
+func (r jobResult) digest() string {
+	switch {
+	case r.text != "":
+		return r.text
+	case r.format:
+		sum := sha256.Sum256(r.out)
+		return fmt.Sprintf("%x/%d", sum[:8], len(r.out))
+	case r.parts != nil:
+		var parts []string
+		for _, p := range r.parts {
+			if e, ok := p.(error); ok {
+				parts = append(parts, "err:"+e.Error())
+				continue
+			}
+			b, _ := json.Marshal(normGo(p))
+			parts = append(parts, string(b))
+		}
+		return strings.Join(parts, "\n")
+	case r.invalid:
+		return "invalid:" + errDigest(r.errs)
+	}
+	return errDigest(r.errs)
+}
+
+func execJob(s *ast.Schema, j c11Job) (res jobResult) {
 	defer func() {
 		if r := recover(); r != nil {
-			digest = fmt.Sprintf("panic:%v", r)
+			res = jobResult{text: fmt.Sprintf("panic:%v", r)}
 		}
 	}()
 	switch j.Kind {
 	case "validate":
 		d, err := parser.ParseQuery(&ast.Source{Name: "q.graphql", Input: j.Query})
 		if err != nil {
-			return "parse:" + err.Error()
+			return jobResult{text: "parse:" + err.Error()}
 		}
-		return errDigest(validator.Validate(s, d))
+		return jobResult{errs: validator.Validate(s, d)}
 	case "coerce", "argmap":
 		d, errs := gqlparser.LoadQuery(s, j.Query)
 		if len(errs) > 0 {
-			return "invalid:" + errDigest(errs)
+			return jobResult{errs: errs, invalid: true}
 		}
-		var parts []string
+		res.parts = []interface{}{}
 		for i, op := range d.Operations {
 			var raw map[string]interface{}
 			if l, ok := j.Vars.([]interface{}); ok && i < len(l) {
@@ -157,11 +198,10 @@ func runJob(s *ast.Schema, j c11Job) (digest string) {
 			}
 			coerced, err := validator.VariableValues(s, op, raw)
 			if err != nil {
-				parts = append(parts, "err:"+err.Error())
+				res.parts = append(res.parts, error(err))
 				continue
 			}
-			b, _ := json.Marshal(normGo(coerced))
-			parts = append(parts, string(b))
+			res.parts = append(res.parts, coerced)
 			if j.Kind == "argmap" {
 				var visit func(ss ast.SelectionSet)
 				seen := map[string]bool{}
@@ -170,13 +210,11 @@ func runJob(s *ast.Schema, j c11Job) (digest string) {
 						switch x := sel.(type) {
 						case *ast.Field:
 							if x.Definition != nil {
-								b, _ := json.Marshal(normGo(x.ArgumentMap(coerced)))
-								parts = append(parts, string(b))
+								res.parts = append(res.parts, x.ArgumentMap(coerced))
 							}
 							for _, dir := range x.Directives {
 								if dir.Definition != nil {
-									b, _ := json.Marshal(normGo(dir.ArgumentMap(coerced)))
-									parts = append(parts, string(b))
+									res.parts = append(res.parts, dir.ArgumentMap(coerced))
 								}
 							}
 							visit(x.SelectionSet)
@@ -193,19 +231,22 @@ func runJob(s *ast.Schema, j c11Job) (digest string) {
 				visit(op.SelectionSet)
 			}
 		}
-		return strings.Join(parts, "\n")
+		return res
 	case "format":
 		var buf bytes.Buffer
 		formatter.NewFormatter(&buf, j.Config.options()...).FormatSchema(s)
-		sum := sha256.Sum256(buf.Bytes())
-		return fmt.Sprintf("%x/%d", sum[:8], buf.Len())
+		return jobResult{out: buf.Bytes(), format: true}
 	}
-	return "?"
+	return jobResult{text: "?"}
 }
 
 // genJobs draws jobs against schema text (a G6 schema) and its reference model.
 func genJob(rt *rapid.T, g genVal) c11Job {
-	switch rapid.IntRange(0, 5).Draw(rt, "jobkind") {
+	switch rapid.IntRange(0, 6).Draw(rt, "jobkind") {
+	case 6:
+		// introspection documents: the same few fragment names at varying depths in every job, so
+		// that state a rule keeps between calls (rather than per call) shows up
+		return c11Job{Kind: "validate", Query: gen.JoinPlain(gen.QueryLexemes(gen.IntrospectionDocumentWithFragments(rt), gen.Canon))}
 	case 0, 1:
 		class := rapid.IntRange(0, 2).Draw(rt, "docclass")
 		var q string
@@ -256,30 +297,75 @@ func c11Eval(h c11History) (viol string) {
 			return fmt.Sprintf("the schema changed during sequential call %d (%s): snapshot %s -> %s", i, j.Kind, base, now)
 		}
 	}
+	// the same calls once more, in reverse order: what a call returns must not depend on the
+	// calls made before it
+	for i := len(h.Jobs) - 1; i >= 0; i-- {
+		if got := runJob(s, h.Jobs[i]); got != want[i] {
+			return fmt.Sprintf("job %d (%s) returns something else when it is repeated later in the history:\n first: %s\n later: %s", i, h.Jobs[i].Kind, diffAround(want[i], got), diffAround(got, want[i]))
+		}
+	}
 	if len(h.Goroutines) == 0 {
 		return ""
 	}
+	// burst: every goroutine validates the documents that produced no error, nothing else. Valid
+	// documents make the library format no message, and formatting synchronises goroutines through
+	// fmt's pool as far as the race detector is concerned, which hides unsynchronised accesses.
+	var quiet []int
+	for i, j := range h.Jobs {
+		if j.Kind == "validate" && (want[i] == "[]" || want[i] == "null") {
+			quiet = append(quiet, i)
+		}
+	}
+	if len(quiet) > 0 {
+		var bw sync.WaitGroup
+		go1 := make(chan struct{})
+		bad := make([]int, len(h.Goroutines))
+		for gi := range h.Goroutines {
+			bw.Add(1)
+			bad[gi] = -1
+			go func(gi int) {
+				defer bw.Done()
+				<-go1
+				for round := 0; round < 2; round++ {
+					for k := range quiet {
+						ji := quiet[(k+gi)%len(quiet)]
+						if res := execJob(s, h.Jobs[ji]); len(res.errs) != 0 || res.text != "" {
+							bad[gi] = ji
+						}
+					}
+				}
+			}(gi)
+		}
+		close(go1)
+		bw.Wait()
+		for gi, ji := range bad {
+			if ji >= 0 {
+				return fmt.Sprintf("goroutine %d, job %d (validate): a document that validates without errors alone does not when validated concurrently", gi, ji)
+			}
+		}
+	}
 	var wg sync.WaitGroup
 	start := make(chan struct{})
-	errs := make([]string, len(h.Goroutines))
+	got := make([][]jobResult, len(h.Goroutines))
 	for gi, idxs := range h.Goroutines {
 		wg.Add(1)
-		go func(gi int, idxs []int) {
+		got[gi] = make([]jobResult, len(idxs))
+		go func(out []jobResult, idxs []int) {
 			defer wg.Done()
 			<-start
-			for _, ji := range idxs {
-				got := runJob(s, h.Jobs[ji])
-				if got != want[ji] && errs[gi] == "" {
-					errs[gi] = fmt.Sprintf("goroutine %d, job %d (%s): the concurrent call returned something else than the same call run alone:\n alone: %s\n concurrent: %s", gi, ji, h.Jobs[ji].Kind, diffAround(want[ji], got), diffAround(got, want[ji]))
-				}
+			// library calls only: results are digested after the goroutines have finished
+			for k, ji := range idxs {
+				out[k] = execJob(s, h.Jobs[ji])
 			}
-		}(gi, idxs)
+		}(got[gi], idxs)
 	}
 	close(start)
 	wg.Wait()
-	for _, e := range errs {
-		if e != "" {
-			return e
+	for gi, idxs := range h.Goroutines {
+		for k, ji := range idxs {
+			if d := got[gi][k].digest(); d != want[ji] {
+				return fmt.Sprintf("goroutine %d, job %d (%s): the concurrent call returned something else than the same call run alone:\n alone: %s\n concurrent: %s", gi, ji, h.Jobs[ji].Kind, diffAround(want[ji], d), diffAround(d, want[ji]))
+			}
 		}
 	}
 	if now := snapshot(s); now != base {
@@ -291,8 +377,8 @@ func c11Eval(h c11History) (viol string) {
 func TestC11(t *testing.T) {
 	r := kit.New(t, "C11")
 	defer r.Finish()
-	r.SetRule("histories on one loaded G6 schema: (a) rapid state machine over the actions validate-valid, validate-invalid (faulty / type-blind / misspelt), coerce variables, resolve arguments of every field and directive, format the schema with random options, with a deep snapshot of the schema graph (every field, pointer identity, slice capacities) compared after every step; " +
-		"(b) the same job mix precomputed sequentially, then issued by 2-32 goroutines started together on the shared schema, each with its own documents; every result must equal the sequential one and the snapshot must be unchanged; the binary is built with -race and halts on the first report. " +
+	r.SetRule("histories on one loaded G6 schema: (a) rapid state machine over the actions validate-valid, validate-invalid (faulty / type-blind / misspelt), validate-introspection (fragments on __Type at several depths), coerce variables, resolve arguments of every field and directive, format the schema with random options, with a deep snapshot of the schema graph (every field, pointer identity, slice capacities) compared after every step, and every call repeated at the end of the history in reverse order (same result required); " +
+		"(b) the same job mix precomputed sequentially, then issued by 2-32 goroutines started together on the shared schema, each with its own documents (two introspection documents with fragments in two different goroutines in every history); every result must equal the sequential one and the snapshot must be unchanged; the binary is built with -race and halts on the first report; (c) a sample of the calls (the introspection documents and one other per history) repeated in this process after all histories and as the only call of a freshly started process: same result required. " +
 		"non-trivial = history with an invalid document and a coercion, or >= 2 goroutines; distinct by history")
 	r.Assume("schedules are those the Go scheduler produced; the race detector flags unsynchronised accesses by happens-before analysis even when they did not overlap in time")
 	replay := func(raw json.RawMessage) string {
@@ -324,12 +410,13 @@ func TestC11(t *testing.T) {
 		}
 		base := snapshot(s)
 		h := c11History{Schema: g.Case.Schema}
+		var first []string
 		step := func(kind func(int) bool) func(*rapid.T) {
 			return func(rt *rapid.T) {
 				j := genJob(rt, g)
 				h.Jobs = append(h.Jobs, j)
 				r.Begin("sequential", func() interface{} { return h })
-				runJob(s, j)
+				first = append(first, runJob(s, j))
 				r.End()
 				r.Class("action:" + j.Kind)
 			}
@@ -342,9 +429,22 @@ func TestC11(t *testing.T) {
 				}
 			},
 		})
+		// history independence: every call repeated at the end, in reverse order, returns what it returned first
+		for i := len(h.Jobs) - 1; i >= 0; i-- {
+			if strings.HasPrefix(first[i], "panic:") {
+				continue
+			}
+			r.Begin("sequential", func() interface{} { return h })
+			got := runJob(s, h.Jobs[i])
+			r.End()
+			if got != first[i] {
+				r.Failf(rt, "sequential", h, "call %d (%s) returns something else when it is repeated at the end of the history:\n first: %s\n later: %s", i, h.Jobs[i].Kind, diffAround(first[i], got), diffAround(got, first[i]))
+			}
+		}
 		key, _ := json.Marshal(h)
 		r.Case(len(h.Jobs) >= 2, string(key))
 	})
+	var alone []c11Alone
 	// (b) concurrent histories
 	r.Rapid("concurrent", kit.Pick(60, 2500), func(rt *rapid.T) {
 		g, ok := genValidationCase(rt, 0)
@@ -356,6 +456,11 @@ func TestC11(t *testing.T) {
 		for i := 0; i < njobs; i++ {
 			h.Jobs = append(h.Jobs, genJob(rt, g))
 		}
+		// two introspection documents with fragments in every history (placed in two different
+		// goroutines below): the rule that follows fragments below __schema / __type keeps search state
+		for k := 0; k < 2; k++ {
+			h.Jobs = append(h.Jobs, c11Job{Kind: "validate", Query: gen.JoinPlain(gen.QueryLexemes(gen.IntrospectionDocumentWithFragments(rt), gen.Canon))})
+		}
 		ng := rapid.SampledFrom([]int{2, 2, 3, 4, 8, 8, 16, 32}).Draw(rt, "goroutines")
 		for gi := 0; gi < ng; gi++ {
 			n := rapid.IntRange(1, 12).Draw(rt, "len")
@@ -365,7 +470,23 @@ func TestC11(t *testing.T) {
 			}
 			h.Goroutines = append(h.Goroutines, idxs)
 		}
+		for k := 0; k < 2; k++ {
+			gi := (rapid.IntRange(0, ng-1).Draw(rt, "introg") + k) % ng
+			if k == 1 && ng > 1 && gi == 0 {
+				gi = 1
+			}
+			at := rapid.IntRange(0, len(h.Goroutines[gi])).Draw(rt, "introat")
+			l := append([]int{}, h.Goroutines[gi][:at]...)
+			l = append(l, njobs+k)
+			h.Goroutines[gi] = append(l, h.Goroutines[gi][at:]...)
+		}
 		writeInflight("C11", "concurrent", h)
+		if len(alone) < kit.Pick(48, 960) {
+			// the two introspection jobs and one drawn job: re-run later, each alone in a fresh process
+			for _, ji := range []int{njobs, njobs + 1, rapid.IntRange(0, njobs-1).Draw(rt, "alonejob")} {
+				alone = append(alone, c11Alone{Schema: h.Schema, Job: h.Jobs[ji]})
+			}
+		}
 		r.Begin("concurrent", func() interface{} { return h })
 		v := c11Eval(h)
 		r.End()
@@ -383,4 +504,107 @@ func TestC11(t *testing.T) {
 			r.Failf(rt, "concurrent", h, "%s", v)
 		}
 	})
+	if t.Failed() || len(alone) == 0 {
+		return
+	}
+	// (c) "what the same call returns when run alone": each kept call once more in this process, after
+	// everything above, and once as the only call of a freshly started process
+	kit.RegisterReplayer("C11", "alone", func(raw json.RawMessage) string { return "" })
+	dir, err := os.MkdirTemp(os.Getenv("VERIF_TMP"), "c11")
+	if err != nil {
+		r.HarnessErrorf("cannot create temp dir: %v", err)
+		return
+	}
+	defer os.RemoveAll(dir)
+	type outcome struct {
+		here, fresh string
+		err         error
+	}
+	res := make([]outcome, len(alone))
+	for i, a := range alone {
+		s, err := gqlparser.LoadSchema(&ast.Source{Name: "schema.graphql", Input: a.Schema})
+		if err != nil {
+			continue
+		}
+		// through JSON like the child, so that both sides decode the same bytes
+		var same c11Alone
+		b, _ := json.Marshal(a)
+		if json.Unmarshal(b, &same) != nil {
+			continue
+		}
+		res[i].here = fmt.Sprintf("%x", sha256.Sum256([]byte(runJob(s, same.Job))))
+	}
+	sem := make(chan struct{}, 12)
+	var wg sync.WaitGroup
+	for i := range alone {
+		if res[i].here == "" {
+			continue
+		}
+		wg.Add(1)
+		go func(i int) {
+			defer wg.Done()
+			sem <- struct{}{}
+			defer func() { <-sem }()
+			file := fmt.Sprintf("%s/case%d.json", dir, i)
+			b, _ := json.Marshal(alone[i])
+			if err := os.WriteFile(file, b, 0o644); err != nil {
+				res[i].err = err
+				return
+			}
+			cmd := exec.Command(os.Args[0], "-test.run", "^TestC11Child$", "-test.v")
+			cmd.Env = append(os.Environ(), "VERIF_C11_CASE="+file, "VERIF_OUT=", "VERIF_INFLIGHT=")
+			out, err := cmd.Output()
+			if err != nil {
+				res[i].err = fmt.Errorf("%v: %s", err, cut(string(out), 0, 300))
+				return
+			}
+			for _, line := range strings.Split(string(out), "\n") {
+				var d string
+				if _, err := fmt.Sscanf(line, "C11DIGEST %s", &d); err == nil {
+					res[i].fresh = d
+				}
+			}
+		}(i)
+	}
+	wg.Wait()
+	for i, o := range res {
+		if o.here == "" {
+			continue
+		}
+		if o.err != nil || o.fresh == "" {
+			r.HarnessErrorf("child process for an alone call failed: %v", o.err)
+			return
+		}
+		r.Class("alone-in-fresh-process")
+		if o.fresh != o.here {
+			r.Violation("alone", alone[i], "the call (%s) returns something else as the only call of a fresh process than in this process after the histories above", alone[i].Job.Kind)
+			return
+		}
+	}
+}
+
+type c11Alone struct {
+	Schema string `json:"schema"`
+	Job    c11Job `json:"job"`
+}
+
+// TestC11Child is the re-executed child: one call, alone, in a fresh process.
+func TestC11Child(t *testing.T) {
+	path := os.Getenv("VERIF_C11_CASE")
+	if path == "" {
+		t.Skip("only runs as a child of TestC11")
+	}
+	b, err := os.ReadFile(path)
+	if err != nil {
+		t.Fatal(err)
+	}
+	var a c11Alone
+	if err := json.Unmarshal(b, &a); err != nil {
+		t.Fatal(err)
+	}
+	s, err := gqlparser.LoadSchema(&ast.Source{Name: "schema.graphql", Input: a.Schema})
+	if err != nil {
+		t.Fatal(err)
+	}
+	fmt.Printf("C11DIGEST %x\n", sha256.Sum256([]byte(runJob(s, a.Job))))
 }
